@@ -318,7 +318,7 @@ DATASETS = ['sample_bivariate_age_income', 'sample_trivariate_xyz', 'sample_univ
             'sample_univariate_beta']
 
 
-def dataset(name, size=2):
+def dataset(name, size=2, seed=11):
     t0 = time.time()
 
     def fn(ctx):
@@ -328,9 +328,9 @@ def dataset(name, size=2):
         beta = gm.ModelClassStub('beta', rng)
         with patched(UT, np=ush), patched(DS, np=sh, stats=ns(beta=beta)):
             g0 = rng.glob.token
-            a = getattr(DS, name)(size=size, seed=11)
+            a = getattr(DS, name)(size=size, seed=seed)
             g1 = rng.glob.token
-            b = getattr(DS, name)(size=size, seed=11)
+            b = getattr(DS, name)(size=size, seed=seed)
             g2 = rng.glob.token
         return a, b, (g0, g1, g2)
     paths, ex, _ = explore(fn, max_paths=2000, tlimit=120)
@@ -345,7 +345,7 @@ def dataset(name, size=2):
         out.append(('deterministic in (size, seed)', 'unsat' if same_vals(a, b) else 'sat'))
         names = syms_of(a)
         out.append(('output independent of the global state', 'unsat' if not any(n.startswith('g0') or n.startswith('entropy') for n in names) else 'sat'))
-    return {'name': f'datasets.{name}', 'kind': 'dataset', 'res': out, 'paths': len(paths), 'exhaustive': ex, 'secs': time.time() - t0}
+    return {'name': f'datasets.{name}' + ('' if seed == 11 else f' (seed={seed})'), 'kind': 'dataset', 'res': out, 'paths': len(paths), 'exhaustive': ex, 'secs': time.time() - t0}
 
 
 def task(a):
@@ -353,7 +353,7 @@ def task(a):
         if a[0] == 'scenario':
             return analyse(a[1], a[2])
         if a[0] == 'dataset':
-            return dataset(a[1])
+            return dataset(a[1], seed=(a[2] if len(a) > 2 else 11))
         return validate_seed()
     except BaseException:
         import traceback
@@ -428,6 +428,28 @@ def concrete_violation(name):
         return True, f'{name}: two equal models with the same seed give different samples: {a1.ravel()[:3]} vs {b1.ravel()[:3]}'
     if np.allclose(a1, a2):
         return True, f'{name}: successive calls do not advance the stream'
+    # one RandomState object handed to two equal models: identical streams, no cross-talk, the caller's object is not consumed
+    try:
+        shared = np.random.RandomState(5)
+        ref_state = np.random.RandomState(5).get_state()
+        p_, q_, r_ = mk(), mk(), mk()
+        p_.set_random_state(shared)
+        q_.set_random_state(shared)
+        r_.set_random_state(np.random.RandomState(5))
+        p1 = np.asarray(p_.sample(3, **kw), dtype=float)
+        q1 = np.asarray(q_.sample(3, **kw), dtype=float)
+        p2 = np.asarray(p_.sample(3, **kw), dtype=float)
+        r1 = np.asarray(r_.sample(3, **kw), dtype=float)
+        r2 = np.asarray(r_.sample(3, **kw), dtype=float)
+    except Exception as e:
+        return True, f'{name}: sampling with a RandomState seed raises {type(e).__name__}: {e}'
+    if not np.allclose(p1, q1, equal_nan=True):
+        return True, f'{name}: two equal models given the same RandomState object give different first samples'
+    if not (np.allclose(p1, r1, equal_nan=True) and np.allclose(p2, r2, equal_nan=True)):
+        return True, f'{name}: the stream of a model seeded with a RandomState depends on calls made on another model sharing that object'
+    st_ = shared.get_state()
+    if not (np.array_equal(st_[1], ref_state[1]) and st_[2] == ref_state[2]):
+        return True, f'{name}: sampling consumes the RandomState object the caller passed as seed'
     # without a seed: driven by, and reproducible through, the global NumPy state
     try:
         u = mk()
@@ -452,20 +474,28 @@ def concrete_violation(name):
 
 def concrete_dataset_violation(name):
     """real code: deterministic in (size, seed), `size` rows, global state untouched"""
-    fn = getattr(DS, name.split('.')[-1])
+    fn = getattr(DS, name.split('.')[-1].split(' ')[0])
+    for seed_ in (11, 0):
+        bad, detail = _concrete_dataset_violation(name, fn, seed_)
+        if bad:
+            return bad, detail
+    return False, ''
+
+
+def _concrete_dataset_violation(name, fn, seed_):
     outs = []
     for gseed in (1, 2):
         np.random.seed(gseed)
         st0 = np.random.get_state()
-        a = fn(size=6, seed=11)
+        a = fn(size=6, seed=seed_)
         st1 = np.random.get_state()
         if not (np.array_equal(st0[1], st1[1]) and st0[2] == st1[2]):
-            return True, f'{name}: the global NumPy random state changed'
+            return True, f'{name} (seed={seed_}): the global NumPy random state changed'
         if len(a) != 6:
             return True, f'{name}: {len(a)} rows for size=6'
         outs.append(np.asarray(a, dtype=float))
     if not np.allclose(outs[0], outs[1], equal_nan=True):
-        return True, f'{name}: output depends on the global random state (not a function of (size, seed))'
+        return True, f'{name} (seed={seed_}): output depends on the global random state (not a function of (size, seed))'
     return False, ''
 
 
@@ -498,6 +528,7 @@ def run(tier, seed):
             jobs.append(('scenario', name, kind))
     for n in DATASETS:
         jobs.append(('dataset', n))
+        jobs.append(('dataset', n, 0))
     for r in pool_map(task, jobs):
         ck.paths += r['paths']
         ck.states += max(1, r['paths'])
